@@ -29,6 +29,9 @@ func checkC03(c *Ctx) {
 	r171b(c)
 	// held requests are released only by resume/stop/their own timer: the gate's state machine (shared with C07)
 	r071(c, "R03.8 gate-state-machine")
+	// "nothing is sent to replaced targets after the deploy returned": also when a rollout deploy that started earlier
+	// finishes later and puts the replaced service object back (known finding K9)
+	rStaleInstall(c, "R03.9 replaced-service-is-never-reinstalled", "SetRolloutTargets", "service-looked-up-before-the-health-wait-installed-after")
 }
 
 func isLoadOfGlobal(v ssa.Value, g *ssa.Global) bool {
@@ -313,6 +316,33 @@ func drainRestores(c *Ctx, rule string, fn, upd *ssa.Function, mark *ssa.Call, d
 			restoreOK, bad = false, ret
 		}
 	}
+	// ... and a drain that finds the target already draining restores nothing: the value it got back IS 'draining', and
+	// putting that back after the drain in progress has finished leaves the target refusing requests for good
+	okNoStale := true
+	var stale ssa.Instruction
+	var restores []ssa.Instruction
+	restores = append(restores, deferred...)
+	for _, cs := range callsTo(fn, upd) {
+		if call, isCall := cs.instr.(*ssa.Call); isCall && isRestore(call) {
+			restores = append(restores, call)
+		}
+	}
+	for _, r := range restores {
+		notDraining := false
+		for _, f := range intFacts(r, func(v ssa.Value) bool { return v == ssa.Value(mark) }) {
+			if f.op == token.NEQ && f.k == draining {
+				notDraining = true
+			}
+		}
+		if !notDraining {
+			okNoStale, stale = false, r
+		}
+	}
+	spos := fn.Pos()
+	if stale != nil {
+		spos = stale.Pos()
+	}
+	c.ob(rule, "Drain/never-restores-draining", spos, okNoStale && len(restores) >= 1, true, "the restore must be registered / made only when the state found was not already 'draining' (overlapping pause and stop drain the same target twice)")
 	pos := fn.Pos()
 	if bad != nil {
 		pos = bad.Pos()
